@@ -1,10 +1,16 @@
 // package-dir: pkg/engine
 // property: C11
 // bound: quick: every directed graph without self loops, one relation, on 4 nodes (4096 edge sets; smaller
-//        graphs are included as graphs with isolated nodes); thorough (VERIF_TIER=thorough): 5 nodes
-//        (1,048,576 edge sets); every ordered pair source != target, maxDepth 1..4, query time "now"
+//
+//	graphs are included as graphs with isolated nodes), every ordered pair source != target; plus every
+//	such graph on 5 nodes with at most 7 edges (137,980 edge sets) for the pair n0 -> n4 (every other
+//	pair of such a graph is the pair n0 -> n4 of a relabelled graph of the same family);
+//	thorough (VERIF_TIER=thorough): 5 nodes, all 1,048,576 edge sets, every ordered pair;
+//	maxDepth 1..4, query time "now"
+//
 // rule: every (graph, source, target, maxDepth) tuple inside the stated bound is run once against the real function
-//        and a reference breadth-first search; non-trivial = a path of at least two hops exists (counted by the harness)
+//
+//	and a reference breadth-first search; non-trivial = a path of at least two hops exists (counted by the harness)
 package engine
 
 // Bounded stand-in for C11 (FindPath is a bidirectional BFS over the live graph; "the path is a
@@ -14,6 +20,7 @@ package engine
 
 import (
 	"fmt"
+	"math/bits"
 	"os"
 	"path/filepath"
 	"testing"
@@ -30,122 +37,132 @@ func TestGovcBounded(t *testing.T) {
 		return
 	}
 	defer eng.Close()
-	n := 4
-	if os.Getenv("VERIF_TIER") == "thorough" {
-		n = 5
+	type family struct {
+		n, maxEdges int
+		allPairs    bool
 	}
-	type pair struct{ a, b int }
-	var slots []pair
-	for a := 0; a < n; a++ {
-		for b := 0; b < n; b++ {
-			if a != b {
-				slots = append(slots, pair{a, b})
-			}
-		}
+	families := []family{{4, 12, true}, {5, 7, false}}
+	if os.Getenv("VERIF_TIER") == "thorough" {
+		families = []family{{5, 20, true}}
 	}
 	explored, violations, nontrivial, samples := 0, 0, 0, 0
-	for mask := 0; mask < 1<<len(slots); mask++ {
-		name := func(i int) string { return fmt.Sprintf("n%d", i) }
-		adj := make([][]int, n)
-		for k, s := range slots {
-			if mask&(1<<k) != 0 {
-				adj[s.a] = append(adj[s.a], s.b)
-				eng.DB.AddEdge(buildGraphID("idx", name(s.a)), buildGraphID("idx", name(s.b)), "r", 1, nil, int64(mask)+1)
-			}
-		}
-		// reference: BFS distances from every node
-		dist := make([][]int, n)
-		for s := 0; s < n; s++ {
-			d := make([]int, n)
-			for i := range d {
-				d[i] = -1
-			}
-			d[s] = 0
-			q := []int{s}
-			for len(q) > 0 {
-				c := q[0]
-				q = q[1:]
-				for _, nb := range adj[c] {
-					if d[nb] < 0 {
-						d[nb] = d[c] + 1
-						q = append(q, nb)
-					}
+	for _, fam := range families {
+		n := fam.n
+		type pair struct{ a, b int }
+		var slots []pair
+		for a := 0; a < n; a++ {
+			for b := 0; b < n; b++ {
+				if a != b {
+					slots = append(slots, pair{a, b})
 				}
 			}
-			dist[s] = d
 		}
-		hasEdge := func(a, b int) bool {
-			for _, x := range adj[a] {
-				if x == b {
-					return true
+		for mask := 0; mask < 1<<len(slots); mask++ {
+			if bits.OnesCount(uint(mask)) > fam.maxEdges {
+				continue
+			}
+			name := func(i int) string { return fmt.Sprintf("n%d", i) }
+			adj := make([][]int, n)
+			for k, s := range slots {
+				if mask&(1<<k) != 0 {
+					adj[s.a] = append(adj[s.a], s.b)
+					eng.DB.AddEdge(buildGraphID("idx", name(s.a)), buildGraphID("idx", name(s.b)), "r", 1, nil, int64(mask)+1)
 				}
 			}
-			return false
-		}
-		idxOf := func(id string) int {
-			for i := 0; i < n; i++ {
-				if name(i) == id {
-					return i
+			// reference: BFS distances from every node
+			dist := make([][]int, n)
+			for s := 0; s < n; s++ {
+				d := make([]int, n)
+				for i := range d {
+					d[i] = -1
 				}
-			}
-			return -1
-		}
-		for s := 0; s < n; s++ {
-			for tg := 0; tg < n; tg++ {
-				if s == tg {
-					continue
-				}
-				for depth := 1; depth <= 4; depth++ {
-					explored++
-					res, err := eng.FindPath("idx", name(s), name(tg), []string{"r"}, depth, 0)
-					if err != nil {
-						fmt.Printf("GOVC-BOUNDED-VIOLATION graph=%b %d->%d maxDepth=%d: error %v\n", mask, s, tg, depth, err)
-						violations++
-						continue
-					}
-					want := dist[s][tg]
-					if want >= 2 {
-						nontrivial++ // a path of at least two hops exists: the search has to compose hops
-						if samples < 3 && mask%977 == 5 && res != nil {
-							samples++
-							fmt.Printf("GOVC-BOUNDED-SAMPLE graph(edge mask)=%b source=%d target=%d maxDepth=%d shortest=%d returned=%v\n", mask, s, tg, depth, want, res.Path)
+				d[s] = 0
+				q := []int{s}
+				for len(q) > 0 {
+					c := q[0]
+					q = q[1:]
+					for _, nb := range adj[c] {
+						if d[nb] < 0 {
+							d[nb] = d[c] + 1
+							q = append(q, nb)
 						}
 					}
-					if res == nil {
-						if want >= 0 && want <= depth {
-							fmt.Printf("GOVC-BOUNDED-VIOLATION graph=%b %d->%d maxDepth=%d: a path of %d hops exists, none returned\n", mask, s, tg, depth, want)
+				}
+				dist[s] = d
+			}
+			hasEdge := func(a, b int) bool {
+				for _, x := range adj[a] {
+					if x == b {
+						return true
+					}
+				}
+				return false
+			}
+			idxOf := func(id string) int {
+				for i := 0; i < n; i++ {
+					if name(i) == id {
+						return i
+					}
+				}
+				return -1
+			}
+			for s := 0; s < n; s++ {
+				for tg := 0; tg < n; tg++ {
+					if s == tg || (!fam.allPairs && (s != 0 || tg != n-1)) {
+						continue
+					}
+					for depth := 1; depth <= 4; depth++ {
+						explored++
+						res, err := eng.FindPath("idx", name(s), name(tg), []string{"r"}, depth, 0)
+						if err != nil {
+							fmt.Printf("GOVC-BOUNDED-VIOLATION graph=%b %d->%d maxDepth=%d: error %v\n", mask, s, tg, depth, err)
+							violations++
+							continue
+						}
+						want := dist[s][tg]
+						if want >= 2 {
+							nontrivial++ // a path of at least two hops exists: the search has to compose hops
+							if samples < 3 && mask%977 == 5 && res != nil {
+								samples++
+								fmt.Printf("GOVC-BOUNDED-SAMPLE graph(edge mask)=%b source=%d target=%d maxDepth=%d shortest=%d returned=%v\n", mask, s, tg, depth, want, res.Path)
+							}
+						}
+						if res == nil {
+							if want >= 0 && want <= depth {
+								fmt.Printf("GOVC-BOUNDED-VIOLATION graph=%b %d->%d maxDepth=%d: a path of %d hops exists, none returned\n", mask, s, tg, depth, want)
+								violations++
+							}
+							continue
+						}
+						p := res.Path
+						ok := len(p) >= 2 && idxOf(p[0]) == s && idxOf(p[len(p)-1]) == tg
+						for i := 0; ok && i+1 < len(p); i++ {
+							a, b := idxOf(p[i]), idxOf(p[i+1])
+							if a < 0 || b < 0 || !hasEdge(a, b) {
+								ok = false
+							}
+						}
+						if !ok {
+							fmt.Printf("GOVC-BOUNDED-VIOLATION graph=%b %d->%d maxDepth=%d: returned path %v is not a path of active edges from source to target\n", mask, s, tg, depth, p)
+							violations++
+							continue
+						}
+						if want < 0 || len(p)-1 != want {
+							fmt.Printf("GOVC-BOUNDED-VIOLATION graph=%b %d->%d maxDepth=%d: returned %d hops %v, shortest is %d\n", mask, s, tg, depth, len(p)-1, p, want)
 							violations++
 						}
-						continue
-					}
-					p := res.Path
-					ok := len(p) >= 2 && idxOf(p[0]) == s && idxOf(p[len(p)-1]) == tg
-					for i := 0; ok && i+1 < len(p); i++ {
-						a, b := idxOf(p[i]), idxOf(p[i+1])
-						if a < 0 || b < 0 || !hasEdge(a, b) {
-							ok = false
-						}
-					}
-					if !ok {
-						fmt.Printf("GOVC-BOUNDED-VIOLATION graph=%b %d->%d maxDepth=%d: returned path %v is not a path of active edges from source to target\n", mask, s, tg, depth, p)
-						violations++
-						continue
-					}
-					if want < 0 || len(p)-1 != want {
-						fmt.Printf("GOVC-BOUNDED-VIOLATION graph=%b %d->%d maxDepth=%d: returned %d hops %v, shortest is %d\n", mask, s, tg, depth, len(p)-1, p, want)
-						violations++
 					}
 				}
 			}
-		}
-		// remove the graph again (hard delete) so that the next one starts from an empty store
-		for k, s := range slots {
-			if mask&(1<<k) != 0 {
-				eng.DB.RemoveEdge(buildGraphID("idx", name(s.a)), buildGraphID("idx", name(s.b)), "r", true, int64(mask)+1)
+			// remove the graph again (hard delete) so that the next one starts from an empty store
+			for k, s := range slots {
+				if mask&(1<<k) != 0 {
+					eng.DB.RemoveEdge(buildGraphID("idx", name(s.a)), buildGraphID("idx", name(s.b)), "r", true, int64(mask)+1)
+				}
 			}
-		}
-		if violations > 20 {
-			break
+			if violations > 20 {
+				break
+			}
 		}
 	}
 	fmt.Printf("GOVC-BOUNDED-DONE explored=%d nontrivial=%d violations=%d\n", explored, nontrivial, violations)
